@@ -540,11 +540,8 @@ fn format_duration(duration_ms: u64) -> String {
 
 fn short_id(task_id: &str) -> String {
     const SHORT_LEN: usize = 8;
-    if task_id.len() <= SHORT_LEN {
-        task_id.to_string()
-    } else {
-        task_id[..SHORT_LEN].to_string()
-    }
+    // Count characters, not bytes: a byte slice panics inside a multi-byte character.
+    task_id.chars().take(SHORT_LEN).collect()
 }
 
 fn status_rank(status: &str) -> u8 {
